@@ -12,3 +12,4 @@ scenarios, jobs, confirm, info = e3check.make('C03', QUICK, THOROUGH,
     ['every ATM_* call site of mu.c, common.c, cv.c, mu_wait.c, once.c, note.c, counter.c, wait.c reachable in the scenarios'],
     ['non-SC behaviours of the atomics themselves (the interleaving is sequentially consistent; only the happens-before derived from it is weakened)', 'platform/c11 and platform/c++11 atomic.h variants (same suffix mapping; not re-run)',
      'fences (nsync uses none)'])
+WORKERS = 5     # each query needs 2-10 GB (cbmc + kissat): bounded parallelism keeps the machine out of swap / the OOM killer
